@@ -246,6 +246,13 @@ struct Stopper {
     bool operator()(S3 x) const { got->push_back(x); return !(stop_after != 0 && got->size() >= stop_after); }
 };
 
+struct Keeper {
+    size_t calls;
+    size_t stop_after;
+    std::vector<S3> own;
+    bool operator()(S3 x) { calls++; own.push_back(x); return !(stop_after != 0 && calls >= stop_after); }
+};
+
 static void callbacks(size_t nmax) {
     for (size_t n = 0; n <= nmax; n++) {
         {
@@ -266,6 +273,22 @@ static void callbacks(size_t nmax) {
             bool ok = offered == want && got.size() == want;
             for (size_t i = 0; ok && i < want; i++) ok = eq(got[i], mk(i));
             printf("CASE callback functor n=%zu stop=%zu %s offered=%zu stored=%zu\n", n, stops[k], ok ? "ok" : "bad", offered, got.size());
+        }
+        /* callables that keep their state INSIDE themselves (a counting function object collecting into its own member, a mutable
+           lambda with a by-value counter): the callback refers to the caller's object, it is invoked in place */
+        for (int k = 0; k < 5; k++) {
+            Keeper kp; kp.calls = 0; kp.stop_after = stops[k];
+            OpaqueCallback<S3> cb(kp);
+            size_t offered = feed(cb, n);
+            size_t want = (stops[k] == 0 || stops[k] > n) ? n : stops[k];
+            bool ok = offered == want && kp.calls == want && kp.own.size() == want;
+            for (size_t i = 0; ok && i < want; i++) ok = eq(kp.own[i], mk(i));
+            printf("CASE callback stateful_functor n=%zu stop=%zu %s offered=%zu stored=%zu\n", n, stops[k], ok ? "ok" : "bad", offered, kp.own.size());
+            size_t seen = 0, stop = stops[k];
+            auto lam = [seen, stop](S3) mutable -> bool { seen++; return !(stop != 0 && seen >= stop); };
+            OpaqueCallback<S3> cb2(lam);
+            size_t offered2 = feed(cb2, n);
+            printf("CASE callback mutable_lambda n=%zu stop=%zu %s offered=%zu stored=%zu\n", n, stops[k], offered2 == want ? "ok" : "bad", offered2, want);
         }
     }
 }
@@ -387,7 +410,7 @@ def run(prop, tier, replay, Ctx):
                   "container layout for instance {CBox<void>, void*} x context {none, CArc<void>, 1/4/8/12-byte user contexts} x temporary storage {none, 1, 2, 4, 8, 24 bytes, "
                   "16-byte aligned} against the plain struct with the same members (size, alignment, offset of every member) and RustMaybeUninit<X> against X; "
                   "std::string <-> CSliceRef<char|unsigned char> for every byte string of length 0..=%d over {NUL, 'a', 0xC3, ' '} (address, length, bytes); "
-                  "CIterator<int> through the generated input iterator (range-for) and std::vector through CPPIterator for every int sequence up to length min(L, 5) over {0, 1, -1, 7}; drop() of the four container specialisations releases the instance, then the context; forget() nothing; OpaqueCallback<S3> from a std::vector and from a functor for n = 0..=%d items x 5 stop positions; distinct = distinct (case, outcome)" % (L, N))
+                  "CIterator<int> through the generated input iterator (range-for) and std::vector through CPPIterator for every int sequence up to length min(L, 5) over {0, 1, -1, 7}; drop() of the four container specialisations releases the instance, then the context; forget() nothing; OpaqueCallback<S3> from a std::vector, from a functor, from a function object that keeps its state in itself and from a mutable lambda for n = 0..=%d items x 5 stop positions; distinct = distinct (case, outcome)" % (L, N))
     if "compile_error" in r:
         rep.record(sec, {"kind": "all"}, None, True, ("cpphelper:compile_error", "the driver using the header's runtime-type templates does not compile:\n" + r["compile_error"][-900:]))
         return ("report", rep.build())
